@@ -83,3 +83,8 @@ SUBS = [
         render=parsing.render, n={"quick": 1500, "thorough": 12000}, shards={"quick": 8, "thorough": 16}, text_keys=("text",),
         essential=("gen=soup", "gen=raw", "gen=damaged", "gen=wellformed", "tracts=2+", "has_error_placeholder")),
 ]
+
+# thorough tier: coverage-guided fuzzing (atheris / libFuzzer) of the same oracle, see fuzz/fuzz_parse.py
+from vlib import fuzzrun  # noqa: E402
+_fuzz_last = {}
+SUBS.append(fuzzrun.fuzz_sub(ID, lambda: next(s for s in SUBS if s.name == "tracts"), _fuzz_last))
